@@ -2,7 +2,6 @@ package sample
 
 import (
 	"math/rand"
-	"time"
 
 	dynsampler "github.com/honeycombio/dynsampler-go"
 
@@ -22,8 +21,8 @@ func createDynForWindowedThroughputSampler(c *config.WindowedThroughputSamplerCo
 
 	dynsamplerInstance := &dynsampler.WindowedThroughput{
 		GoalThroughputPerSec:      float64(c.GoalThroughputPerSec) / float64(clusterSize),
-		UpdateFrequencyDuration:   time.Duration(c.UpdateFrequency),
-		LookbackFrequencyDuration: time.Duration(c.LookbackFrequency),
+		UpdateFrequencyDuration:   dynsamplerInterval(c.UpdateFrequency),
+		LookbackFrequencyDuration: dynsamplerInterval(c.LookbackFrequency),
 		MaxKeys:                   maxKeys,
 	}
 	dynsamplerInstance.Start()
